@@ -315,7 +315,7 @@ def release_post():
                                  v1['flock_owner'] != z3.Select(v0['ofd_of'], v0['fd'])))
     return {'return': [
         ('releasing_unheld_lock_is_noop', {'C12'}, noop_when_unheld),
-        ('inner_release_of_reentrant_keeps_the_lock', {'C12'}, inner_release_keeps_lock),
+        ('inner_release_of_reentrant_keeps_the_lock', {'C12', 'C02'}, inner_release_keeps_lock),
         ('outermost_or_forced_release_frees_everything', {'C12', 'C02'}, full_release),
     ]}
 
